@@ -465,3 +465,59 @@ Proof.
   - rewrite A1, B1, En, E1. reflexivity.
   - rewrite A2, B2, En, E2. reflexivity.
 Qed.
+
+(* ------------------------------------------------------------------ the checker's SLD computation is the model's *)
+(* xray_sld_run (one table search per atom, Qred in between) with the model's search returns the
+   values of xray_sld_model *)
+Lemma sum4_locate_acc : forall T x d v1 v2 s1 s2,
+  fst (fold_left (fun acc p =>
+               let '((v1, v2), (s1, s2)) := acc in
+               let '((f1, f2), (a1, a2)) :=
+                 match T (fst p) with Val t => sfs locate t x | _ => ((None, None), (0, 0)) end in
+               ((oadd v1 (oscale (snd p) f1), oadd v2 (oscale (snd p) f2)),
+                (s1 + Qabs (snd p) * a1, s2 + Qabs (snd p) * a2)))
+            d ((v1, v2), (s1, s2)))
+  = (fold_left (fun a p => oadd a (oscale (snd p) (F1_of T x (fst p)))) d v1,
+     fold_left (fun a p => oadd a (oscale (snd p) (F2_of T x (fst p)))) d v2).
+Proof.
+  intros T x d. induction d as [|[a n] r IH]; intros v1 v2 s1 s2; [reflexivity|].
+  simpl fold_left. unfold F1_of at 2, F2_of at 2. simpl fst. simpl snd.
+  destruct (T a) as [t| |].
+  - pose proof (sfs_locate_sf t x) as E. destruct (sfs locate t x) as [[f1 f2] [a1 a2]].
+    simpl in E. unfold sf in E. inversion E; subst. apply IH.
+  - apply IH.
+  - apply IH.
+Qed.
+
+Lemma sum4_locate : forall T x d, fst (sum4 locate T x d) = (fsum (F1_of T x) d, fsum (F2_of T x) d).
+Proof. intros T x d. unfold sum4, fsum. apply sum4_locate_acc. Qed.
+
+Lemma oeq_sld_of_red : forall re na r m v,
+  oeq (ored (sld_of re na (Qred r) (Qred m) (ored v))) (sld_of re na r m v).
+Proof.
+  intros re na r m v. destruct v as [q|]; [|exact I].
+  change (Qred (Qred r / Qred m * na * (1 # 100000000) * (re * Qred q)) == r / m * na * (1 # 100000000) * (re * q)).
+  rewrite !Qred_correct. reflexivity.
+Qed.
+
+Theorem xray_sld_run_is_model : forall E re na T s dn nd x,
+  match xray_sld_run locate E re na T s dn nd x, xray_sld_model E re na T s dn nd x with
+  | Val ((a1, a2), _), Val (b1, b2) => oeq a1 b1 /\ oeq a2 b2
+  | Raise, Raise => True
+  | _, _ => False
+  end.
+Proof.
+  intros E re na T s dn nd x. unfold xray_sld_run, xray_sld_model.
+  destruct (init_density E s dn nd) as [rho|]; [|exact I].
+  destruct (negb (has_table T (count_atoms s))); [exact I|].
+  assert (Qeq_bool (Qred (dweight (e_mass E) (count_atoms s))) 0 = Qeq_bool (dweight (e_mass E) (count_atoms s)) 0) as Hb.
+  { destruct (Qeq_bool (dweight (e_mass E) (count_atoms s)) 0) eqn:B.
+    - apply Qeq_bool_iff. rewrite Qred_correct. apply Qeq_bool_iff. exact B.
+    - destruct (Qeq_bool (Qred (dweight (e_mass E) (count_atoms s))) 0) eqn:B'; [|reflexivity].
+      apply Qeq_bool_iff in B'. rewrite Qred_correct in B'. apply Qeq_bool_iff in B'. congruence. }
+  rewrite Hb. destruct (Qeq_bool (dweight (e_mass E) (count_atoms s)) 0).
+  - split; simpl; reflexivity.
+  - pose proof (sum4_locate T x (count_atoms s)) as S.
+    destruct (sum4 locate T x (count_atoms s)) as [[v1 v2] [s1 s2]]. simpl in S. inversion S; subst.
+    split; apply oeq_sld_of_red.
+Qed.
